@@ -817,3 +817,9 @@ def coq_equation(c, mr):
         rhs = "Err %s" % mr[1] if mr[0] == "err" else "Ok (c15_mk_header %s)" % " ".join(coq_lit(x) for x in mr[1])
         return "c15_block_header_deser %s = %s" % (coq_bytes(a[0]), rhs)
     return None
+
+
+# ops whose answer must not depend on the concrete bytes-like type of their arguments (they agree on the pinned tree;
+# tools/bytearray_probe.py); common.py re-runs a sample of their cases with bytearray arguments
+BYTEARRAY_OPS = {'coinbase_tx', 'block_header', 'block_ser', 'coinbase_txin', 'block_deser', 'block_header_deser', 'mine_block_assemble'}
+MEMORYVIEW_OPS = {'block_header_deser', 'block_header', 'coinbase_tx', 'block_deser', 'mine_block_assemble', 'coinbase_txin'}
